@@ -42,7 +42,7 @@
     }
 
     #[kani::proof]
-    #[kani::unwind(6)]
+    #[kani::unwind(12)]
     fn core_fields_from_typed_cells() {
         let (ts, id): (u64, u64) = (kani::any(), kani::any());
         let mut b = EventBuilder::new();
